@@ -148,11 +148,20 @@ class LemmaRun:
         self.notes = []
         self.reached = 0
         self.obl = 0
+        self.nbounds = 0
+        self.bounds_verdict = "unsat"
+        self.bounds_samples = []
+        self.sampled = False
 
     def refute(self, st, claim, extra=()):
         """returns a model of path ∧ extra ∧ ¬claim, or None when the claim holds on this path"""
         self.obl += 1
         c = simp(claim)
+        if not self.sampled:
+            self.sampled = True
+            self.ctx.sample({"lemma": self.name, "bound": self.bound, "obligation": "path condition ∧ ¬claim must be unsat",
+                             "path_conjuncts": len(st.path), "exit": st.exit, "instructions_on_path": st.steps,
+                             "claim_excerpt": str(c)[:300]})
         if z3.is_true(c):
             self.ex.queries += 1
             return None
@@ -167,10 +176,16 @@ class LemmaRun:
             return m
         return None
 
-    def bounds(self, st, extra=()):
+    def bounds(self, st, extra=(), skip=None):
         """memory-safety obligations collected on this path: returns (obligation, model) of the first that fails"""
         for o in st.obligations:
+            if skip and o.kind in skip:
+                continue
             self.obl += 1
+            self.nbounds += 1
+            if len(self.bounds_samples) < 2:
+                self.bounds_samples.append({"lemma": self.name + ".bounds", "obligation": o.what, "at": hex(o.pc) if o.pc else None,
+                                            "condition_excerpt": str(o.cond)[:200]})
             r, m = self.ex.check(list(o.path) + list(extra) + [z3.Not(o.cond)], nontrivial=True)
             if r == "sat":
                 return o, m
@@ -183,8 +198,8 @@ class LemmaRun:
             raise Inconclusive("%s: vacuous - no assertion site was reachable" % self.name)
         for f in sorted(ex.funcs_used):
             src = self.prog.src_of.get(f)
-            ctx.functions[f] = {"instrs": len(self.prog.func_instrs(f)),
-                                "src": src, "src_hash": common.file_sha(os.path.join(common.REPO, src)) if src else None}
+            ctx.functions[f] = {"instrs": len(self.prog.func_instrs(f)), "file": src,
+                                "src_hash": common.file_sha(os.path.join(common.REPO, src)) if src else None}
         ctx.queries += ex.queries
         ctx.nontrivial += ex.nontrivial
         ctx.solver_s += ex.solver_s
@@ -196,6 +211,15 @@ class LemmaRun:
         ctx.add_lemma(self.name, verdict, paths=self.paths, queries=ex.queries, solver_s=round(ex.solver_s, 2),
                       bound=self.bound, obligations=self.obl, wall_s=round(time.time() - self.t0, 1),
                       note="; ".join(self.notes) if self.notes else None, **kw)
+        # memory-safety side of the lemma as its own entry (C05 collects these): every load/store of the executed paths
+        # lies inside the extents the Go callers provide; accesses at concrete in-range offsets are closed by evaluation
+        ctx.add_lemma(self.name + ".bounds", self.bounds_verdict, paths=self.paths, obligations=self.nbounds,
+                      bound="all loads/stores on the paths of %s inside the declared region extents; %d symbolic-offset/"
+                            "precondition obligations needed the solver, the rest are concrete offsets checked on the fly" % (self.name, self.nbounds))
+        for b in self.bounds_samples:
+            ctx.sample(b)
+        if not self.sampled:
+            ctx.sample({"lemma": self.name, "bound": self.bound, "obligation": "see lemma entry"})
         return verdict
 
     def counterexample(self, what, witness, replay_fn):
@@ -214,6 +238,33 @@ class LemmaRun:
     def violation(self, what, witness, replay_fn):
         w = self.counterexample(what, witness, replay_fn)
         self.ctx.report_violation("%s: %s" % (self.name, what), w)
+        self.verdict = "sat"
+
+    def try_violation(self, what, witness, replay_fn):
+        """like violation(), but a counterexample that does not reproduce is not an error yet (the caller escalates)"""
+        self.ctx.replays += 1
+        ok, detail = replay_fn(witness)
+        self.ctx.log("[replay] %s: %s (%s)" % (self.name, "reproduced" if ok else "NOT reproduced", detail))
+        if not ok:
+            self.notes.append("not reproducible through the single-subroutine wrapper: %s" % detail[:200])
+            return False
+        witness = dict(witness)
+        witness["native"] = detail
+        self.ctx.sample({"lemma": self.name, "counterexample": what, "witness": witness})
+        self.ctx.report_violation("%s: %s" % (self.name, what), witness)
+        self.verdict = "sat"
+        return True
+
+    def bounds_violation(self, what, witness, replay_fn=None):
+        """a memory-safety obligation fails: replayed where an effect is observable (guard zone behind the index buffer)"""
+        self.bounds_verdict = "sat"
+        if replay_fn is not None:
+            witness = self.counterexample(what, witness, replay_fn)
+        else:
+            witness = dict(witness)
+            witness["note"] = "an access outside the extent the Go callers guarantee; not observable as a functional difference, not replayed"
+            self.ctx.sample({"lemma": self.name + ".bounds", "counterexample": what, "witness": witness})
+        self.ctx.report_violation("%s.bounds: %s" % (self.name, what), witness)
         self.verdict = "sat"
 
 
@@ -502,18 +553,21 @@ def _sub_lemma(ctx, lname, base, fam):
         if m is not None:
             q, _ = sub_request(base, fam, I, m)
             what = "%s: output %s differs from the reference" % (run.name, k)
+            reported = False
             if base == "__finalize_structurals" and fam == "avx512":
                 # no Go wrapper for the avx512 finalize alone: look for a counterexample realisable by a block
                 B, e0, i0, cons = realizable_block_constraints(I)
                 m2 = L.refute(st, got[k] == want[k], extra=cons)
-                if m2 is None:
-                    raise Inconclusive(what + " (abstract masks), but no block realises it; not replayable")
-                q = {"op": "block", "fam": "avx512", "buf": block_of(m2, B), "a": [mval(m2, e0), M64 if mval(m2, i0) else 0, 0, mval(m2, I["pp0"])]}
-                L.violation(what, {"request": _jsonable(q)}, lambda w: replay_vs_ref(q, fields=[0, 4]))
+                if m2 is not None:
+                    q = {"op": "block", "fam": "avx512", "buf": block_of(m2, B), "a": [mval(m2, e0), M64 if mval(m2, i0) else 0, 0, mval(m2, I["pp0"])]}
+                    reported = L.try_violation(what, {"request": _jsonable(q)}, lambda w: replay_vs_ref(q, fields=[0, 4]))
             else:
-                L.violation(what, {"request": _jsonable(q), "output": k,
-                                   "lifted": hex(mval(m, got[k])), "reference": hex(mval(m, want[k]))},
-                            lambda w: replay_vs_ref(q))
+                reported = L.try_violation(what, {"request": _jsonable(q), "output": k,
+                                                  "lifted": hex(mval(m, got[k])), "reference": hex(mval(m, want[k]))},
+                                           lambda w: replay_vs_ref(q))
+            if not reported and not escalate_sub(L, ctx, base, fam):
+                raise Inconclusive("%s: %s at the register level, but neither the Go wrapper nor the slice driver (cases %s) "
+                                   "exhibits it" % (L.name, what, ESCALATION_CASES))
             return L.finish()
     bad = run.frame()
     if bad:
@@ -844,7 +898,7 @@ def _block_term(st, fam):
     return simp(z3.Concat(z3.Extract(255, 0, st.regs["zmm9"]), z3.Extract(255, 0, st.regs["zmm8"])))
 
 
-def make_hooks(fam, P, consts512=None):
+def make_hooks(fam, P, consts512=None, index_size=1536, inline=()):
     """call summaries per the register contracts (DESIGN A.2): outputs overwritten with the provider's terms,
     clobber sets havoc'd"""
     x5 = fam == "avx512"
@@ -932,35 +986,44 @@ def make_hooks(fam, P, consts512=None):
         name = "__flatten_bits_incremental"
         mask, idx, car, pos, base = st.regs["rax"], st.regs["rbx"], st.regs["rdx"], st.regs["r10"], st.regs["rdi"]
         st.events.append(("flat", base, mask, idx, car, pos))
-        ex.oblige(st, "pre", z3.ULE(idx, h_flat.max_index), "A6 precondition: index <= %d at the flatten_bits call" % h_flat.max_index, ins)
+        if isinstance(P, UFProvider):
+            ex.oblige(st, "flatbound", z3.ULE(idx, index_size - 64),
+                      "index buffer store bound: index <= indexSize-64 = %d at the flatten_bits call (A6 precondition; stores at "
+                      "[index, index+64) must stay inside the %d-entry buffer)" % (index_size - 64, index_size), ins)
+        else:
+            ex.oblige(st, "flatbound", z3.ULE(idx + refs.popcount64(mask), index_size),
+                      "index buffer store bound: index + popcount(mask) <= indexSize = %d at the flatten_bits call" % index_size, ins)
         i1, c1, p1 = P.FLAT(mask, idx, car, pos)
         if isinstance(P, UFProvider):
             st.path.append(z3.ULE(i1 - idx, 64))      # A6: at most 64 entries are appended per call
         havoc(st, name)
         st.regs["rbx"], st.regs["rdx"], st.regs["r10"] = i1, c1, p1
 
-    h_flat.max_index = 1536 - 64
     hooks = {H.sub_name("__find_odd_backslash_sequences", fam): h_oe,
              H.sub_name("__find_quote_mask_and_bits", fam): h_q,
              H.sub_name("__find_whitespace_and_structurals", fam): h_ws,
              H.sub_name("__finalize_structurals", fam): h_fin,
              H.sub_name("__find_newline_delimiters", fam): h_nl,
              "__flatten_bits_incremental": h_flat}
+    for n in inline:
+        hooks.pop(n, None)          # executed for real (escalation of a subroutine-level counterexample)
     return hooks, h_flat
 
 
 class SliceSyms:
     """symbolic inputs of one slice-driver run, shared between families / with the reference"""
 
-    def __init__(self, nblocks, r, limit):
-        self.nblocks, self.r, self.limit = nblocks, r, limit
+    def __init__(self, nblocks, r, limit, index_size=1536):
+        self.nblocks, self.r, self.limit, self.index_size = nblocks, r, limit, index_size
         self.n = nblocks * 64 + r
         self.ext = nblocks * 64 + (0 if r == 0 else 32 if r < 32 else 64)
         self.bytes = [z3.BitVec("m%03d" % i, 8) for i in range(self.ext)]
         self.esc0, self.inq0, self.pp0 = z3.Bool("esc0"), z3.Bool("inq0"), z3.Bool("pp0")
         self.E, self.i0, self.c0, self.p0 = z3.BitVec("error_mask0", 64), z3.BitVec("index0", 64), z3.BitVec("carried0", 64), z3.BitVec("position0", 64)
         self.nd = z3.BitVec("ndjson", 64)
-        self.pre = [z3.ULT(self.i0, limit)]
+        # what findStructuralIndices guarantees: the first call starts at 0/1; the padded tail call reuses the buffer the
+        # first call left, which stopped at the first block boundary with index >= limit, i.e. at most limit-1+64
+        self.pre = [z3.ULE(self.i0, limit + 63)]
 
     def model_request(self, m, fam):
         g = lambda t: mval(m, t)
@@ -969,8 +1032,9 @@ class SliceSyms:
                 "a": [self.n, g(self.esc0), M64 if g(self.inq0) else 0, g(self.E), g(self.pp0), g(self.i0), g(self.c0), g(self.p0), g(self.nd)]}
 
 
-def run_slice(L, fam, S, P):
-    """executes the real slice driver of family `fam` with call summaries; returns final states"""
+def run_slice(L, fam, S, P, inline=()):
+    """executes the real slice driver of family `fam` with call summaries (callees named in `inline` are executed
+    for real); returns final states"""
     ex, prog = L.ex, L.prog
     x5 = fam == "avx512"
     st = fresh_state()
@@ -979,13 +1043,13 @@ def run_slice(L, fam, S, P):
         # the constants the driver's own __init calls will establish (they are executed for real below as well)
         tmp = H.run_inits(ex, fresh_state())
         consts = {r: tmp.regs[r] for r in H.CONST512}
-    hooks, hflat = make_hooks(fam, P, consts)
+    hooks, hflat = make_hooks(fam, P, consts, S.index_size, inline)
     ex.hooks = hooks
     buf = st.add_region("buf", S.ext, writable=False, default="none", data=S.bytes)
     c = lambda n, v: BV(st.cell(n, v), 64)
     esc, piq, em, pp = c("esc", refs.b2m(S.esc0)), c("piq", refs.b2all(S.inq0)), c("em", S.E), c("pp", refs.b2m(S.pp0))
     idx, car, pos = c("index", S.i0), c("carried", S.c0), c("position", S.p0)
-    ib = st.add_region("indexes", 1536 * 4, kind="log")
+    ib = st.add_region("indexes", S.index_size * 4, kind="log")
     lim = BV(S.limit, 64)
     if x5:
         set_args(st, [BV(buf.base, 64), BV(S.n, 64), esc, piq, em, pp, BV(ib.base, 64), idx, lim, car, pos, S.nd])
@@ -1050,10 +1114,17 @@ def tails_for(ctx):
     return [0, 1, 31, 32, 33, 63] if ctx.tier == "quick" else list(range(64))
 
 
-def _a7_case(L, family, nb, r, LIMIT, P):
+def replay_oob(q):
+    """native run with a guard zone behind the index buffer: reproduced iff something was written beyond entry indexSize-1"""
+    n = replay.native([q])[0]
+    return n["oob"] > 0, "native wrote %d entries beyond the index buffer (index' = %s)" % (n["oob"], n["r"][5] if len(n["r"]) > 5 else n["r"][:1])
+
+
+def _a7_case(L, family, nb, r, LIMIT, P, inline=(), extra=(), isz=None):
     """one (blocks, tail) case: returns None if all claims hold, else (what, model, S, obligation-or-None)"""
-    S = SliceSyms(nb, r, LIMIT)
-    fins = run_slice(L, family, S, P)
+    S = SliceSyms(nb, r, LIMIT, isz or go_consts()[0])
+    S.pre = S.pre + [e(S) for e in extra]
+    fins = run_slice(L, family, S, P, inline)
     chain, facts = ref_slice_chain(S, P)
     total = len(chain)
     pre = S.pre + facts
@@ -1091,40 +1162,81 @@ def _a7_case(L, family, nb, r, LIMIT, P):
     return None
 
 
-def A7(ctx, family, cases=None):
+def _report_slice_failure(L, ctx, family, bad, LIMIT, pair=False):
+    """bad = (what, model, S, obligation) obtained with the references instantiated: replay and report; returns True if reported"""
+    what, mdl, S, o = bad
+    q = S.model_request(mdl, family)
+    if o is not None and o.kind == "flatbound":
+        L.bounds_violation(what, {"request": _jsonable(q)}, lambda w: replay_oob(q))
+        return True
+    if o is not None and o.kind == "bounds":
+        L.bounds_violation(what, {"request": _jsonable(q)})
+        return True
+    if o is not None:
+        raise Inconclusive("%s: summary precondition fails: %s" % (L.name, what))
+    if pair:
+        return L.try_violation(what, {"request": _jsonable(q)}, lambda w: replay_pair(q))
+    return L.try_violation(what, {"request": _jsonable(q)}, lambda w: replay_vs_ref(q, limit=LIMIT))
+
+
+ESCALATION_CASES = [(1, 0), (2, 0), (1, 33), (0, 33)]
+
+
+def escalate_sub(L, ctx, base, family, LIMIT=None):
+    """a subroutine-level difference that cannot be shown through the subroutine's own Go wrapper (e.g. it depends on the
+    carried error mask in K4): re-derive it at the slice-driver level with the *real* code of that subroutine inlined and
+    everything else at its reference, and replay through find_structural_bits_in_slice[_avx512].
+    family = "avx2"/"avx512" (against the reference composition) or "pair" (AVX2 vs AVX-512).  True if a violation was reported."""
+    INDEX_SIZE, LIM = go_consts()
+    LIMIT = LIMIT or LIM
+    noexit = lambda S: z3.ULE(S.i0, 1)            # first look without the early-exit paths (cheap), then in full
+    for extra in ([noexit, lambda S: S.nd == 0], []):
+        for nb, r in ESCALATION_CASES:
+            if family == "pair":
+                inl = [H.sub_name(base, f) for f in FAMILIES]
+                bad = _a8_case(L, nb, r, LIMIT, RefProvider(), inline=inl, extra=extra)
+                if bad is not None and _report_slice_failure(L, ctx, "avx2", bad, LIMIT, pair=True):
+                    L.notes.append("escalated to the slice drivers (%d blocks + tail %d) with %s inlined" % (nb, r, base))
+                    return True
+            else:
+                inl = [H.sub_name(base, family)]
+                bad = _a7_case(L, family, nb, r, LIMIT, RefProvider(), inline=inl, extra=extra)
+                if bad is not None and _report_slice_failure(L, ctx, family, bad, LIMIT):
+                    L.notes.append("escalated to the slice driver (%d blocks + tail %d) with %s inlined" % (nb, r, inl[0]))
+                    return True
+    return False
+
+
+def A7(ctx, family, cases=None, ndjson=None):
     """slice driver (real code) with callee summaries == reference composition, for blocks in {0,1,2} x tails.
     The callees are uninterpreted functions shared by driver and reference (composition lemma, valid for any callee
-    behaviour); A1–A6 instantiate them with REF-SCAN/FLAT."""
+    behaviour); A1–A6 instantiate them with REF-SCAN/FLAT.  ndjson: None = symbolic flag, 1/0 = fixed."""
     INDEX_SIZE, LIMIT = go_consts()
     cases = cases or [(nb, r) for nb in (0, 1, 2) for r in tails_for(ctx)]
-    L = LemmaRun(ctx, "A7(%s)" % family, bound="blocks in {0,1,2} x tail lengths %s; any carry-in, any index < %d; bytes fully symbolic"
-                 % (_ranges(sorted(set(r for _, r in cases))), LIMIT))
+    nm = "A7(%s)" % family + ("" if ndjson is None else "[ndjson=%d]" % ndjson) + \
+         ("" if len(cases) >= 18 else "[%s]" % ",".join("%d+%d" % c for c in cases[:3]) + ("..." if len(cases) > 3 else ""))
+    L = LemmaRun(ctx, nm, bound="blocks in {0,1,2} x tail lengths %s; any carry-in and error mask, any index <= %d+63 (store bound "
+                                "index+64 <= %d); bytes fully symbolic; ndjson %s"
+                 % (_ranges(sorted(set(r for _, r in cases))), LIMIT, INDEX_SIZE, "symbolic" if ndjson is None else ndjson))
     ctx.assume("A7: callees replaced by summaries per their register contracts with clobber sets havoc'd (DESIGN §3.1 cut points); "
                "the summaries are uninterpreted functions shared with the reference composition, instantiated by A1–A6; "
                "flatten_bits appends at most 64 entries (A6)")
-    ctx.assume("A7: *index < indexSizeWithSafetyBuffer on entry (findStructuralIndices passes 0 or 1)")
+    ctx.assume("A7: *index <= indexSizeWithSafetyBuffer+63 = %d on entry (constant read from parsed_json.go; findStructuralIndices "
+               "starts a buffer at 0/1 and hands the buffer of an early-exited call, index <= limit-1+64, to the padded tail call: G1)" % (LIMIT + 63))
     ctx.stubs.add("A7/A8: CALL __find_* / __flatten_bits_incremental = summaries justified by A1–A6 (A8: by the pairwise subroutine equivalences)")
+    extra = [] if ndjson is None else [(lambda S: S.nd == ndjson)]
     for nb, r in cases:
-        bad = _a7_case(L, family, nb, r, LIMIT, UFProvider())
+        bad = _a7_case(L, family, nb, r, LIMIT, UFProvider(), extra=extra, isz=INDEX_SIZE)
         if bad is None:
             continue
         # re-derive with the reference instantiated, so that the witness bytes are meaningful and can be replayed
-        bad2 = _a7_case(L, family, nb, r, LIMIT, RefProvider())
+        bad2 = _a7_case(L, family, nb, r, LIMIT, RefProvider(), extra=extra, isz=INDEX_SIZE)
         if bad2 is None:
             L.notes.append("case (%d,%d): composition with uninterpreted callees fails (%s) but holds with the references instantiated" % (nb, r, bad[0]))
             continue
-        what, mdl, S, o = bad2
-        q = S.model_request(mdl, family)
-        if o is not None and o.kind == "bounds":
-            ctx.sample({"lemma": L.name, "bounds_violation": o.what, "request": _jsonable(q)})
-            L.verdict = "sat"
-            ctx.report_violation("%s: memory-safety obligation fails: %s (an access outside the extent the Go callers guarantee; "
-                                 "not observable as a functional difference, so not replayed)" % (L.name, what), {"request": _jsonable(q)})
+        if _report_slice_failure(L, ctx, family, bad2, LIMIT):
             return L.finish()
-        if o is not None:
-            raise Inconclusive("%s: summary precondition fails: %s" % (L.name, what))
-        L.violation(what, {"request": _jsonable(q)}, lambda w: replay_vs_ref(q, limit=LIMIT))
-        return L.finish()
+        raise Inconclusive("%s: counterexample of the driver lemma does not reproduce natively: %s" % (L.name, bad2[0]))
     return L.finish()
 
 
@@ -1160,18 +1272,22 @@ def _a8_sub(ctx, key):
         if m is None:
             continue
         what = "%s: output %s differs between the AVX2 and AVX-512 kernels" % (base, k)
+        reported = False
         if base == "__finalize_structurals":
             B, e0, i0, cons = realizable_block_constraints(I)
             m2 = L.refute(r2.st, o2[k] == o5[k], list(r5.st.path) + cons)
-            if m2 is None:
-                raise Inconclusive(what + " for abstract masks, but no block realises them; not replayable")
-            q = {"op": "block", "buf": block_of(m2, B), "a": [mval(m2, e0), M64 if mval(m2, i0) else 0, 0, mval(m2, I["pp0"])]}
-            L.violation(what, {"request": _jsonable(q)}, lambda w: replay_pair(q, fields=[0, 4]))
+            if m2 is not None:
+                q = {"op": "block", "buf": block_of(m2, B), "a": [mval(m2, e0), M64 if mval(m2, i0) else 0, 0, mval(m2, I["pp0"])]}
+                reported = L.try_violation(what, {"request": _jsonable(q)}, lambda w: replay_pair(q, fields=[0, 4]))
         else:
             q, _ = sub_request(base, "avx2", I, m)
             if base == "__find_quote_mask_and_bits":
                 q["a"][2] = 0          # the avx512 wrapper starts from an empty error mask
-            L.violation(what, {"request": _jsonable(q), "avx2": hex(mval(m, o2[k])), "avx512": hex(mval(m, o5[k]))}, lambda w: replay_pair(q))
+            reported = L.try_violation(what, {"request": _jsonable(q), "avx2": hex(mval(m, o2[k])), "avx512": hex(mval(m, o5[k]))},
+                                       lambda w: replay_pair(q))
+        if not reported and not escalate_sub(L, ctx, base, "pair"):
+            raise Inconclusive("%s: %s at the register level, but neither the Go wrappers nor the slice drivers (cases %s) "
+                               "exhibit it" % (L.name, what, ESCALATION_CASES))
         return L.finish()
     for run in (r2, r5):
         bad = run.frame()
@@ -1183,12 +1299,14 @@ def _a8_sub(ctx, key):
     return L.finish()
 
 
-def _a8_case(L, nb, r, LIMIT, P):
-    S = SliceSyms(nb, r, LIMIT)
-    f2s = run_slice(L, "avx2", S, P)
-    f5s = run_slice(L, "avx512", S, P)
+def _a8_case(L, nb, r, LIMIT, P, inline=(), extra=()):
+    S = SliceSyms(nb, r, LIMIT, go_consts()[0])
+    S.pre = S.pre + [e(S) for e in extra]
+    f2s = run_slice(L, "avx2", S, P, inline)
+    f5s = run_slice(L, "avx512", S, P, inline)
     for f in f2s + f5s:
-        o, mdl = L.bounds(f, S.pre)
+        # the index-buffer store bound is family independent (same flatten_bits code): A7/C05 own it
+        o, mdl = L.bounds(f, S.pre, skip=("flatbound",))
         if o is not None:
             return ("%s (%d blocks + tail %d)" % (o.what, nb, r), mdl, S, o)
     L.paths += len(f2s) + len(f5s)
@@ -1243,11 +1361,10 @@ def A8(ctx, parts=None, cases=None):
             if bad2 is None:
                 L.notes.append("case (%d,%d): differs with uninterpreted callees (%s) but equal with the references instantiated" % (nb, r, bad[0]))
                 continue
-            what, mdl, S, o = bad2
-            q = S.model_request(mdl, "avx2")
-            if o is not None:
-                raise Inconclusive("A8: obligation fails while running the drivers: %s" % what)
-            L.violation(what, {"request": _jsonable(q)}, lambda w: replay_pair(q))
+            if bad2[3] is not None:
+                raise Inconclusive("A8: obligation fails while running the drivers: %s" % bad2[0])
+            if not _report_slice_failure(L, ctx, "avx2", bad2, LIMIT, pair=True):
+                raise Inconclusive("%s: counterexample of the driver equivalence does not reproduce natively: %s" % (L.name, bad2[0]))
             done = True
             break
         verdicts.append(L.finish())
